@@ -465,6 +465,59 @@ func (g *tgen) special(td *TD, construct string) {
 		if g.r.Intn(2) == 0 {
 			add(FD{Go: g.fieldName(), Tag: g.jsonName(used), T: wrap(inner)})
 		}
+	case "repeat-deep":
+		// fragment construct: a struct type that occurs twice inside one struct, with a sibling of another type in
+		// between, the host struct sitting below a slice / array / map element or several levels of plain nesting
+		// (the second occurrence is a $ref whose target must be the FIRST occurrence, wherever that is)
+		leaf := g.strct(0, nil)
+		other := g.strct(0, nil)
+		other.F = append(other.F, FD{Go: g.fieldName(), Tag: "only_in_other", T: &TD{K: "str"}})
+		eu := map[string]bool{}
+		elem := &TD{K: "struct"}
+		for i := g.r.Intn(3); i > 0; i-- {
+			elem.F = append(elem.F, FD{Go: g.fieldName(), Tag: g.jsonName(eu), T: g.leaf()})
+		}
+		elem.F = append(elem.F, FD{Go: g.fieldName(), Tag: g.jsonName(eu), T: wrap(leaf)})
+		for i := 1 + g.r.Intn(2); i > 0; i-- {
+			if g.r.Intn(2) == 0 {
+				elem.F = append(elem.F, FD{Go: g.fieldName(), Tag: g.jsonName(eu), T: wrap(other)})
+			} else {
+				elem.F = append(elem.F, FD{Go: g.fieldName(), Tag: g.jsonName(eu) + ",omitempty", T: &TD{K: "ptr", E: other}})
+			}
+		}
+		switch g.r.Intn(3) {
+		case 0:
+			elem.F = append(elem.F, FD{Go: g.fieldName(), Tag: g.jsonName(eu) + ",omitempty", T: &TD{K: "ptr", E: leaf}})
+		default:
+			elem.F = append(elem.F, FD{Go: g.fieldName(), Tag: g.jsonName(eu), T: wrap(leaf)})
+		}
+		if g.r.Intn(2) == 0 {
+			elem.F = append(elem.F, FD{Go: g.fieldName(), Tag: g.jsonName(eu), T: wrap(other)})
+		}
+		var host *TD
+		switch g.r.Intn(5) {
+		case 0:
+			host = &TD{K: "slice", E: elem}
+		case 1:
+			host = &TD{K: "map", E: elem}
+		case 2:
+			host = &TD{K: "array", N: 1 + g.r.Intn(2), E: &TD{K: "ptr", E: elem}}
+		default: // 2..5 levels of plain struct nesting (the root is one more)
+			host = elem
+			for lv := 2 + g.r.Intn(4); lv > 0; lv-- {
+				nu := map[string]bool{}
+				st := &TD{K: "struct"}
+				if g.r.Intn(3) == 0 {
+					st.F = append(st.F, FD{Go: g.fieldName(), Tag: g.jsonName(nu), T: g.leaf()})
+				}
+				st.F = append(st.F, FD{Go: g.fieldName(), Tag: g.jsonName(nu), T: host})
+				if g.r.Intn(3) == 0 {
+					st.F = append(st.F, FD{Go: g.fieldName(), Tag: g.jsonName(nu), T: g.leaf()})
+				}
+				host = st
+			}
+		}
+		add(FD{Go: g.fieldName(), Tag: g.jsonName(used), T: host})
 	default:
 		panic("special: " + construct)
 	}
